@@ -29,6 +29,7 @@ type Grease struct {
 	Body int `json:"body"`
 	Tag  int `json:"tag"`
 	Arg  int `json:"arg,omitempty"` // length of an extra (long) argument on the stanza line
+	App  int `json:"app,omitempty"` // the recipient appends this many bytes to the file-key slice it was handed (msg := append(fileKey, ctx...)): legal, and harmless while the slice has no spare capacity
 }
 
 func (r Recip) String() string {
@@ -65,7 +66,7 @@ func BuildRecipients(rs []Recip) []age.Recipient {
 		if r.Key != nil {
 			out = append(out, world.Recipient(*r.Key))
 		} else {
-			out = append(out, &world.GreaseRecipient{N: r.Grease.N, BodyLen: r.Grease.Body, Tag: r.Grease.Tag, ArgLen: r.Grease.Arg})
+			out = append(out, &world.GreaseRecipient{N: r.Grease.N, BodyLen: r.Grease.Body, Tag: r.Grease.Tag, ArgLen: r.Grease.Arg, Append: r.Grease.App})
 		}
 	}
 	return out
@@ -113,6 +114,9 @@ func GenRecips(r *core.RNG, max int, allowRSA, allowScrypt bool) []Recip {
 				if g.N == 0 {
 					g.N = 1
 				}
+			}
+			if r.Chance(1, 6) {
+				g.App = r.Pick(1, 8, 16, 17)
 			}
 			out = append(out, Recip{Grease: g})
 		}
